@@ -57,7 +57,8 @@ def check(run):
                     failed[0].msg[:80] if hasattr(failed[0], 'msg') else 'instance count %r' % (failed[0],)))
         except AnalysisError as e:
             if not (covered and semantic_ok):
-                raise
+                run.deferred.append('%s: %s' % (rid, e))     # reported unless a violation (of C07-DISCOVERY, say) is the better answer
+                continue
             del run.obs[before[0]:]
             del run.floors[before[1]:]
             run.note(rid, 'per-site analysis skipped (%s); the clause is decided by C07-DISCOVERY' % e, fn=disc)
@@ -406,7 +407,7 @@ def discovery_cases(p):
                2: [b'caf\xc3\xa9', b'\xe2\x82\xac'], 4: ['caf\u00e9', '\u20ac', '', '\U0001F600\U0001F600']}
     grid = []
     for type_ in ('int', 'real', 'date', 'bool'):
-        for length, nnull in ((0, 0), (6, 0), (6, 1), (6, 2), (6, 6)):
+        for length, nnull in ((0, 0), (6, 0), (6, 1), (6, 2), (6, 6), (1, 0), (1, 1), (2, 1), (2, 2)):
             for m, M in mm:
                 for nuniq_kind in ('all', 'fewer'):
                     grid.append((type_, length, nnull, m, M, nuniq_kind, None))
@@ -544,4 +545,4 @@ def discovery_table(run, p, rid='C07-DISCOVERY'):
     run.ob(rid, '%s::%s::grid' % (disc.rel, disc.short), not bad,
            '%d column summaries evaluated%s' % (n, '' if not bad else '; %d wrong, e.g. (type, records, nulls, min, max, distinct)=%r gives %r, documented %r' % (
                (len(bad),) + bad[0])), fn=disc, detail={'wrong': [repr(b)[:300] for b in bad[:6]]} if bad else None)
-    run.floor(rid, n, 300)
+    run.floor(rid, n, 500)
